@@ -357,6 +357,18 @@ func (x *c18Exec) ServeHTTP(w http.ResponseWriter, r *http.Request) {
 	case 3:
 		h.Set("Trailer", "Content-Length, X-Rtr-A")
 	}
+	if m.RespTr >= c18TrSpellBase {
+		sp := c18TrSpellOf(m.RespTr)
+		for _, v := range sp.announce() {
+			h.Add("Trailer", v)
+		}
+		if sp.Set == 1 {
+			// an announced trailer that already holds a value when the header is written is
+			// still a trailer: it carries the value it holds when the handler returns
+			h.Set(sp.setKey("X-Rtr-B"), "early-b")
+			h.Set(sp.setKey("X-Rtr-C"), "early-c")
+		}
+	}
 	if m.Status != 0 {
 		w.WriteHeader(m.status())
 	}
@@ -394,6 +406,18 @@ func (x *c18Exec) ServeHTTP(w http.ResponseWriter, r *http.Request) {
 		}
 	}
 	want := c18RespTrailer(m, idx)
+	if m.RespTr >= c18TrSpellBase {
+		sp := c18TrSpellOf(m.RespTr)
+		for _, name := range c18TrNames {
+			for i, v := range want[name] {
+				if i == 0 {
+					h.Set(sp.setKey(name), v)
+				} else {
+					h.Add(sp.setKey(name), v)
+				}
+			}
+		}
+	}
 	switch m.RespTr {
 	case 1, 3:
 		for k, v := range want {
@@ -935,7 +959,7 @@ func (x *c18Exec) judge() {
 				ign[k] = true
 			}
 			if d := c18HeaderDiff("response header", c18RespHeader(m, idx), co.header, ign, false); d != "" {
-				x.fail("response-header-altered", "%s: %s", tag, d)
+				x.fail("response-header-altered"+c18RespTrKey(m), "%s: %s", tag, d)
 			}
 			if m.Status == 3 {
 				if len(co.info) != 1 || co.info[0] != 103 || len(co.infoHdr[0]["Link"]) != 1 || co.infoHdr[0]["Link"][0] != c18RespHeader(m, idx).Get("Link") {
@@ -1003,7 +1027,7 @@ func (x *c18Exec) judge() {
 		}
 		if m.respBodyExpected() {
 			if d := c18TrailerDiff("response trailer", c18RespTrailer(m, idx), co.trailer); d != "" {
-				x.fail(keyPfx+"response-trailer-altered", "%s: %s", tag, d)
+				x.fail(keyPfx+"response-trailer-altered"+c18RespTrKey(m), "%s: %s", tag, d)
 			}
 		}
 	}
